@@ -65,7 +65,7 @@ Definition hllq_m (p : Z) : Z := 2 ^ p.
 Definition alpha_model (m : Z) : float :=
   (hll_alpha_num / (hll_alpha_one + hll_alpha_den / f_of_Z m))%float.
 (* l.341-343: the rows are indexed by int(p) - 7 *)
-Definition row_index (p : Z) : nat := Z.to_nat (p - 7).
+Definition row_index (p : Z) : nat := Z.to_nat (p - hll_table_offset).
 Definition hll_threshold (p : Z) : Z := nth (row_index p) sub_algorithm_threshold 0.
 Definition hll_raw (p : Z) : list float := nth (row_index p) raw_estimate [].
 Definition hll_bias (p : Z) : list float := nth (row_index p) bias_data [].
